@@ -64,6 +64,7 @@ type SPConfig struct {
 	SigStyle   KeyStyle // KeyNone = no separate signing key
 	SigKeyIdx  int
 	SigCert    *Cert
+	SigCertRaw []byte // when non-nil: the signing key store hands out these bytes as certificate (e.g. none at all)
 	// SharedKeyStores: the *saml2.KeyStore objects handed to the setters are created once per
 	// configuration and handed to every instance built from it (and from copies of it): an
 	// application that keeps one key-store object for several service providers
@@ -202,7 +203,7 @@ func NewSPNode(cfg *SPConfig, simNow func() time.Time) (*SPNode, error) {
 			sp.SPKeyStore = dsig.TLSCertKeyStore(tls.Certificate{Certificate: [][]byte{{}}, PrivateKey: Key(cfg.EncKeyIdx).Signer})
 		}
 	}
-	if err := applyKey(sp, cfg.SigStyle, cfg.SigKeyIdx, cfg.SigCert, true); err != nil {
+	if err := applyKeyRaw(sp, cfg.SigStyle, cfg.SigKeyIdx, cfg.SigCert, true, cfg.SigCertRaw, nil); err != nil {
 		return nil, err
 	}
 	n.SP = sp
